@@ -69,6 +69,10 @@ type Kind struct {
 	// Class is the coarse operand kind used in violation signatures (several Kinds that differ only in
 	// the shape of op0 share a Class); empty: Name.
 	Class string
+	// Light: a value-alphabet kind (same code path class as a full kind, another value of a scalar): it is only
+	// crossed with the aliasing patterns and the new / residue-filled receivers, not with the output histories
+	// and the previous-call histories.
+	Light bool
 	// History: besides the first kind of each row, this kind is also used as "previous call on the same
 	// receiver" in the quick tier (kinds that leave characteristic content in scratch buffers, e.g. a vector
 	// operand with non-zero imaginary parts going through the evaluator's encoder).
@@ -85,23 +89,24 @@ type Kind struct {
 type Shape int
 
 const (
-	ShapeExact        Shape = iota // freshly allocated, exactly the shape of the result, zeroed, default metadata
-	ShapeDirtyWords                // exact shape, default metadata, but every word holds an old value
-	ShapeDirtyMeta                 // exact shape, zeroed, but the metadata of another result (other scale / dimensions / batching flag)
-	ShapeLargerDegree              // one more polynomial than the result, old values in every word
-	ShapeLargerLevel               // one more level than the result (when the chain allows it), old values
-	ShapeSmallerLevel              // one level less than the result would have, old values (the reference is then a fresh output of that smaller level)
+	ShapeExact         Shape = iota // freshly allocated, exactly the shape of the result, zeroed, default metadata
+	ShapeDirtyWords                 // exact shape, default metadata, but every word holds an old value
+	ShapeDirtyMeta                  // exact shape, zeroed, but the metadata of another result (other scale / dimensions / batching flag)
+	ShapeLargerDegree               // one more polynomial than the result, old values in every word
+	ShapeLargerLevel                // one more level than the result (when the chain allows it), old values
+	ShapeSmallerLevel               // one level less than the result would have, old values (the reference is then a fresh output of that smaller level); the object was allocated at the full level, filled, then shrunk in place (Resize): its spare capacity holds old rows
+	ShapeSmallerDegree              // one component less than the result (degree >= 1 kept): allocated with the full degree, filled, then shrunk in place by Resize — the dropped component stays in the spare capacity of the backing array; operations that grow the receiver again must not get it back (reference: a fresh output of that smaller degree)
 )
 
 func (s Shape) String() string {
-	return [...]string{"exact", "dirty-words", "dirty-meta", "larger-degree", "larger-level", "smaller-level"}[s]
+	return [...]string{"exact", "dirty-words", "dirty-meta", "larger-degree", "larger-level", "smaller-level", "shrunk-degree"}[s]
 }
 
 // Weaker returns the output histories that are strictly "contained" in s (used to attribute a failure
 // to the smallest deviation that reproduces it).
 func (s Shape) Weaker() []Shape {
 	switch s {
-	case ShapeLargerDegree, ShapeLargerLevel, ShapeSmallerLevel:
+	case ShapeLargerDegree, ShapeLargerLevel, ShapeSmallerLevel, ShapeSmallerDegree:
 		return []Shape{ShapeDirtyWords}
 	}
 	return nil
@@ -134,9 +139,34 @@ func (o *OutSpec) MakeOut(e *Env, in []interface{}, sh Shape) interface{} {
 	case ShapeLargerLevel:
 		out = o.New(e, in, 0, 1)
 	case ShapeSmallerLevel:
+		if isNilOut(o.New(e, in, 0, -1)) {
+			return nil
+		}
+		// allocated at the full level, every word old, then shrunk in place by the library's Resize (as DropLevel /
+		// Rescale do): the dropped rows stay in the spare capacity of the row slices
+		if out = o.New(e, in, 0, 0); !isNilOut(out) && canShrink(out) {
+			FillObject(out, FillPattern)
+			shrink(out, 0, -1)
+			return out
+		}
 		out = o.New(e, in, 0, -1)
+	case ShapeSmallerDegree:
+		if isNilOut(o.New(e, in, -1, 0)) {
+			return nil
+		}
+		out = o.New(e, in, 0, 0)
+		if isNilOut(out) || len(ciphertextsOf(out)) == 0 || minDegree(out) < 2 {
+			return nil
+		}
+		if o.Accumulates {
+			fillTop(out) // the accumulator's content is an input: only the component that is dropped holds old values
+		} else {
+			FillObject(out, FillPattern)
+		}
+		shrink(out, -1, 0)
+		return out
 	}
-	if out == nil || reflect.ValueOf(out).Kind() == reflect.Ptr && reflect.ValueOf(out).IsNil() {
+	if isNilOut(out) {
 		return nil
 	}
 	if sh == ShapeDirtyMeta {
@@ -151,6 +181,80 @@ func (o *OutSpec) MakeOut(e *Env, in []interface{}, sh Shape) interface{} {
 	}
 	FillObject(out, FillPattern)
 	return out
+}
+
+func isNilOut(out interface{}) bool {
+	if out == nil {
+		return true
+	}
+	v := reflect.ValueOf(out)
+	switch v.Kind() {
+	case reflect.Ptr, reflect.Map, reflect.Slice:
+		return v.IsNil()
+	}
+	return false
+}
+
+// ciphertextsOf returns the ciphertexts of an output object that the library's Resize can shrink in place.
+func ciphertextsOf(x interface{}) []*rlwe.Ciphertext {
+	switch o := x.(type) {
+	case *rlwe.Ciphertext:
+		return []*rlwe.Ciphertext{o}
+	case []*rlwe.Ciphertext:
+		return o
+	case map[int]*rlwe.Ciphertext:
+		var r []*rlwe.Ciphertext
+		for _, k := range sortedIntKeys(o) {
+			r = append(r, o[k])
+		}
+		return r
+	}
+	return nil
+}
+
+func sortedIntKeys(m map[int]*rlwe.Ciphertext) []int {
+	keys := make([]int, 0, len(m))
+	for k := range m {
+		keys = append(keys, k)
+	}
+	sort.Ints(keys)
+	return keys
+}
+
+func canShrink(x interface{}) bool {
+	if _, ok := x.(*rlwe.Plaintext); ok {
+		return true
+	}
+	return len(ciphertextsOf(x)) > 0
+}
+
+func minDegree(x interface{}) int {
+	d := 1 << 20
+	for _, ct := range ciphertextsOf(x) {
+		if ct.Degree() < d {
+			d = ct.Degree()
+		}
+	}
+	return d
+}
+
+// shrink reduces degree / level in place with rlwe.Element.Resize (what Relinearize, Rescale, DropLevel do).
+func shrink(x interface{}, dDeg, dLvl int) {
+	if pt, ok := x.(*rlwe.Plaintext); ok {
+		pt.Resize(0, pt.Level()+dLvl)
+		pt.Value = pt.Element.Value[0]
+		return
+	}
+	for _, ct := range ciphertextsOf(x) {
+		ct.Resize(ct.Degree()+dDeg, ct.Level()+dLvl)
+	}
+}
+
+// fillTop writes old values into the last component only.
+func fillTop(x interface{}) {
+	for _, ct := range ciphertextsOf(x) {
+		FillObject(ct.Value[ct.Degree()], FillPattern)
+	}
 }
 
 // MetaHolder is implemented by composite output objects (several ciphertexts) of the table.
